@@ -23,6 +23,78 @@ include!("verif_bounds.rs");
 pub const MARKER: u8 = 0x7f;
 
 // ---------------------------------------------------------------------------------------------
+// symbolic inputs go through these wrappers: in replay mode (REPLAY_ON, written by the runner together
+// with the values Kani's concrete playback printed for a counterexample) they return the recorded
+// values, so the counterexample is re-executed with every input pinned.
+// ---------------------------------------------------------------------------------------------
+include!("verif_replay.rs");
+static mut RP_IDX: usize = 0;
+
+fn rp_next() -> &'static [u8]
+{
+    unsafe {
+        let i = RP_IDX;
+        RP_IDX += 1;
+        if i < REPLAY.len() { REPLAY[i] } else { &[0, 0, 0, 0, 0, 0, 0, 0] }
+    }
+}
+fn sym_u8() -> u8
+{
+    if REPLAY_ON { rp_next()[0] } else { kani::any() }
+}
+fn sym_bool() -> bool
+{
+    if REPLAY_ON { rp_next()[0] != 0 } else { kani::any() }
+}
+fn sym_u32() -> u32
+{
+    if REPLAY_ON { let b = rp_next(); u32::from_le_bytes([b[0], b[1], b[2], b[3]]) } else { kani::any() }
+}
+fn sym_u64() -> u64
+{
+    if REPLAY_ON { let b = rp_next(); u64::from_le_bytes([b[0], b[1], b[2], b[3], b[4], b[5], b[6], b[7]]) } else { kani::any() }
+}
+fn sym_usize() -> usize
+{
+    sym_u64() as usize
+}
+unsafe fn sym_drain()
+{
+    fsm::DRAIN[0] = sym_usize();
+    fsm::DRAIN[1] = sym_usize();
+    fsm::DRAIN[2] = sym_usize();
+    fsm::DRAIN[3] = sym_usize();
+    fsm::DRAIN[4] = sym_usize();
+    fsm::DRAIN[5] = sym_usize();
+    fsm::DRAIN[6] = sym_usize();
+    fsm::DRAIN[7] = sym_usize();
+    fsm::DRAIN[8] = sym_usize();
+    fsm::DRAIN[9] = sym_usize();
+    fsm::DRAIN[10] = sym_usize();
+    fsm::DRAIN[11] = sym_usize();
+    fsm::DRAIN[12] = sym_usize();
+    fsm::DRAIN[13] = sym_usize();
+    fsm::DRAIN[14] = sym_usize();
+    fsm::DRAIN[15] = sym_usize();
+    fsm::DRAIN[16] = sym_usize();
+    fsm::DRAIN[17] = sym_usize();
+    fsm::DRAIN[18] = sym_usize();
+    fsm::DRAIN[19] = sym_usize();
+    fsm::DRAIN[20] = sym_usize();
+    fsm::DRAIN[21] = sym_usize();
+    fsm::DRAIN[22] = sym_usize();
+    fsm::DRAIN[23] = sym_usize();
+    fsm::DRAIN[24] = sym_usize();
+    fsm::DRAIN[25] = sym_usize();
+    fsm::DRAIN[26] = sym_usize();
+    fsm::DRAIN[27] = sym_usize();
+    fsm::DRAIN[28] = sym_usize();
+    fsm::DRAIN[29] = sym_usize();
+    fsm::DRAIN[30] = sym_usize();
+    fsm::DRAIN[31] = sym_usize();
+}
+
+// ---------------------------------------------------------------------------------------------
 // ghost state written by stubs
 // ---------------------------------------------------------------------------------------------
 pub const MAXIDS: usize = 8;
@@ -93,7 +165,7 @@ fn stub_remove_file<P: AsRef<std::path::Path>>(path: P) -> std::io::Result<()>
 // ---------------------------------------------------------------------------------------------
 fn any_kind() -> LogRefKind
 {
-    let k: u8 = kani::any();
+    let k: u8 = sym_u8();
     kani::assume(k < 4);
     match k
     {
@@ -135,18 +207,18 @@ fn any_entries(len: usize) -> ([E; NENT], Vec<LogRefEntry>)
     let mut i = 0;
     while i < NENT
     {
-        let pos: usize = kani::any();
+        let pos: usize = sym_usize();
         kani::assume(pos <= len);
         if i > 0
         {
             kani::assume(pos > es[i - 1].pos);
         }
-        let has_ref: bool = kani::any();
-        let reference: u32 = kani::any();
+        let has_ref: bool = sym_bool();
+        let reference: u32 = sym_u32();
         let kind = any_kind();
         es[i] = E { pos, has_ref, reference, preexisting_kind: kind == LogRefKind::StructuredPreExisting };
         v.push(LogRefEntry::new(
-            CodePosition::new(pos, kani::any(), kani::any()),
+            CodePosition::new(pos, sym_usize(), sym_usize()),
             if has_ref { Some(reference) } else { None },
             String::new(),
             kind,
@@ -175,8 +247,14 @@ impl Content
 
 fn any_ascii_content() -> Content
 {
-    let bytes: [u8; NBYTES] = kani::any();
-    let len: usize = kani::any();
+    let mut bytes = [0u8; NBYTES];
+    let mut bi = 0;
+    while bi < NBYTES
+    {
+        bytes[bi] = sym_u8();
+        bi += 1;
+    }
+    let len: usize = sym_usize();
     kani::assume(len <= NBYTES);
     let mut i = 0;
     while i < NBYTES
@@ -268,8 +346,8 @@ unsafe fn register_expected(bytes: &[u8; NBYTES], len: usize, es: &[E; NENT], ta
 
 unsafe fn any_faults()
 {
-    fsm::FAIL_MASK = kani::any();
-    fsm::DRAIN = kani::any();
+    fsm::FAIL_MASK = sym_u32();
+    sym_drain();
 }
 
 // ---------------------------------------------------------------------------------------------
@@ -411,7 +489,7 @@ fn insert_body(faults: bool, symbolic_content: bool)
     };
     let (content, bytes, len) = (c.as_str(), c.bytes, c.len);
     let (es, entries) = any_entries(len);
-    let start: u32 = kani::any();
+    let start: u32 = sym_u32();
     kani::assume(start >= 1);
     let counter = Arc::new(AtomicU32::new(start));
     let params = Some(counter.clone());
@@ -422,10 +500,10 @@ fn insert_body(faults: bool, symbolic_content: bool)
         register_expected(&bytes, len, &es, 0);
         if faults
         {
-            fsm::FAIL_MASK = kani::any();
-            fsm::ERR_KIND = kani::any();
+            fsm::FAIL_MASK = sym_u32();
+            fsm::ERR_KIND = sym_u8();
         }
-        fsm::DRAIN = kani::any();
+        sym_drain();
         NIDS = 0;
     }
 
@@ -504,8 +582,8 @@ fn u_insert_unordered()
 {
     let c = any_ascii_content();
     let (content, len) = (c.as_str(), c.len);
-    let p1: usize = kani::any();
-    let p2: usize = kani::any();
+    let p1: usize = sym_usize();
+    let p2: usize = sym_usize();
     kani::assume(p1 <= len && p2 < p1);
     let entries = vec![
         LogRefEntry::new(CodePosition::new(p1, 1, 1), None, String::new(), LogRefKind::String, None, None),
@@ -542,14 +620,14 @@ fn u_insert_unordered()
 #[kani::unwind(5)]
 fn u_insert_reduce()
 {
-    let f1: bool = kani::any();
-    let f2: bool = kani::any();
-    let f3: bool = kani::any();
-    let n1: usize = kani::any();
-    let n2: usize = kani::any();
-    let n3: usize = kani::any();
+    let f1: bool = sym_bool();
+    let f2: bool = sym_bool();
+    let f3: bool = sym_bool();
+    let n1: usize = sym_usize();
+    let n2: usize = sym_usize();
+    let n3: usize = sym_usize();
     kani::assume(n1 <= 1 << 40 && n2 <= 1 << 40 && n3 <= 1 << 40);
-    let n: usize = kani::any();
+    let n: usize = sym_usize();
     kani::assume(n <= 3);
     let all = [
         InsertReferencesResult { failure: f1, num_inserted_references: n1 },
@@ -651,7 +729,7 @@ impl PrResult for (u32, usize)
     unsafe fn contract(_c: Option<&AtomicU32>) -> Self
     {
         // u_nextid: next >= 1, next > every existing id, missing counted exactly
-        let next: u32 = kani::any();
+        let next: u32 = sym_u32();
         kani::assume(next >= 1 && (next > G_MAX || (G_MAX == u32::MAX && next == u32::MAX)));
         (next, G_MISSING)
     }
@@ -668,10 +746,10 @@ impl PrResult for InsertReferencesResult
     unsafe fn contract(counter: Option<&AtomicU32>) -> Self
     {
         // u_insert: a file with nothing missing is not touched and cannot fail
-        let failure: bool = kani::any();
+        let failure: bool = sym_bool();
         kani::assume(!failure || G_MISSING > 0);
         let (t, w) = insert_effect(counter, failure, false);
-        let reported: usize = if failure { kani::any() } else { w as usize };
+        let reported: usize = if failure { sym_usize() } else { w as usize };
         G_INSERT_FAILED = failure;
         let _ = t;
         InsertReferencesResult {
@@ -690,8 +768,8 @@ unsafe fn insert_effect(counter: Option<&AtomicU32>, failure: bool, stopped: boo
     G_INSERT_RAN = true;
     let c = counter.unwrap();
     let start = c.load(Ordering::Relaxed) as u64;
-    let t: u64 = kani::any();
-    let w: u64 = kani::any();
+    let t: u64 = sym_u64();
+    let w: u64 = sym_u64();
     kani::assume(w <= t && t <= G_MISSING as u64);
     kani::assume(start + t <= u32::MAX as u64);
     if !failure && !stopped
@@ -740,7 +818,7 @@ where
             return None;
         }
         // a signal may arrive at any operation boundary of the pass
-        let signal_now: bool = kani::any();
+        let signal_now: bool = sym_bool();
         if signal_now
         {
             context.stop_commanded.store(true, Ordering::Relaxed);
@@ -751,7 +829,7 @@ where
             }
             return None;
         }
-        if ReduceResult::may_be_none() && kani::any()
+        if ReduceResult::may_be_none() && sym_bool()
         {
             G_EXHAUSTED = true;
             return None;
@@ -817,12 +895,12 @@ fn stub_fs_write<P: AsRef<std::path::Path>, C: AsRef<[u8]>>(_path: P, _contents:
 
 fn any_context(check_mode: bool) -> Context
 {
-    let use_cache: bool = kani::any();
+    let use_cache: bool = sym_bool();
     let lock_before: Option<u32> = unsafe {
-        LOCK_PRESENT = kani::any();
-        LOCK_VALUE = kani::any();
+        LOCK_PRESENT = sym_bool();
+        LOCK_VALUE = sym_u32();
         // Context::new only reads the lock when use_cache is on; an unparsable lock reads as None
-        if use_cache && LOCK_PRESENT && kani::any() { Some(LOCK_VALUE) } else { None }
+        if use_cache && LOCK_PRESENT && sym_bool() { Some(LOCK_VALUE) } else { None }
     };
     Context {
         config: Config {
@@ -830,25 +908,25 @@ fn any_context(check_mode: bool) -> Context
             source_dir: String::new(),
             use_cache,
             rust: RustConfig {
-                structured: kani::any(),
+                structured: sym_bool(),
                 log_macros: Vec::new(),
                 extensions: Vec::new(),
             },
         },
         cached_next_reference_id: lock_before,
         check_mode,
-        stop_commanded: Arc::new(AtomicBool::new(kani::any())),
+        stop_commanded: Arc::new(AtomicBool::new(sym_bool())),
     }
 }
 
 unsafe fn any_tree()
 {
-    G_MAX = kani::any();
-    G_MISSING = kani::any();
+    G_MAX = sym_u32();
+    G_MISSING = sym_usize();
     kani::assume(G_MISSING <= 3);
-    G_NFILES = kani::any();
+    G_NFILES = sym_usize();
     kani::assume(G_NFILES <= 2);
-    G_FINDER_FAILS = kani::any();
+    G_FINDER_FAILS = sym_bool();
 }
 
 #[kani::proof]
@@ -942,7 +1020,7 @@ fn generate_body(kill_window: bool)
         if use_cache && G_W > 0
         {
             assert!(LOCK_PRESENT && LOCK_VALUE as u64 >= G_START + G_T,
-                "C02: the lock file is ahead of every id written, however the run ends");
+                "C02/C18: the lock file is ahead of every id written, however the run ends");
         }
         if use_cache && LOCK_PRESENT && (LOCK_WRITES > 0 || cached.is_some())
         {
@@ -1038,7 +1116,7 @@ fn u_load()
 {
     // content: NBYTES symbolic ASCII bytes, optionally preceded by a UTF-8 byte order mark
     let c = any_ascii_content();
-    let bom: bool = kani::any();
+    let bom: bool = sym_bool();
     let mut v: Vec<u8> = Vec::with_capacity(NBYTES + 3);
     if bom
     {
@@ -1056,9 +1134,9 @@ fn u_load()
     unsafe {
         fsm::reset();
         fsm::SRC_PRESENT[0] = true;
-        fsm::UNREADABLE[0] = kani::any();
+        fsm::UNREADABLE[0] = sym_bool();
         fsm::READ_CONTENT[0] = Some(String::from_utf8_unchecked(v));
-        fsm::FAIL_MASK = kani::any();
+        fsm::FAIL_MASK = sym_u32();
     }
     let r = load_code(&String::from("a"));
     unsafe {
@@ -1141,13 +1219,13 @@ fn u_pr()
         G_FINDER_FAILS = false;
         fsm::SRC_PRESENT[0] = true;
         fsm::SRC_PRESENT[1] = true;
-        fsm::UNREADABLE[0] = kani::any();
-        fsm::UNREADABLE[1] = kani::any();
-        fsm::SIGNAL_AT = kani::any();
+        fsm::UNREADABLE[0] = sym_bool();
+        fsm::UNREADABLE[1] = sym_bool();
+        fsm::SIGNAL_AT = sym_usize();
         PR_NMAPPED = 0;
         PR_REDUCED = false;
     }
-    let initial: bool = kani::any();
+    let initial: bool = sym_bool();
     let ctx = Context {
         config: Config {
             config_dir: String::new(),
